@@ -111,6 +111,46 @@ Definition type_mismatch (st : fecdec) (seqid flag : Z) : bool :=
   if seqid mod d_size st <? d_data st then negb (flag =? c_typeData)
   else negb (flag =? c_typeParity).
 
+(* the tail of decode once the packet passed the paws and type checks with shouldTune = false:
+   find/create the group, dedupe, store, trigger, newestShardId, discardShards *)
+Definition dec_store (mk : Z -> Z -> codec) (st : fecdec) (pkt : bytes) (seqid : Z)
+  : res (fecdec * list bytes) :=
+  let ss := d_size st in
+  let shardId := seqid / ss in
+  (* no group is held (new decoder, or just re-tuned): this packet defines the position *)
+  let newest0 := match d_sets st with [] => shardId | _ => d_newest st end in
+  let '(elems, sets0) :=
+    match set_find shardId (d_sets st) with
+    | Some e => (e, d_sets st)
+    | None => ([], set_put shardId [] (d_sets st))
+    end in
+  if has_seqid seqid elems then Ok (set_sets st newest0 sets0, []) else
+  if c_mtuLimit <? blen pkt then Panic P_decPoolCopy else
+  let elems1 := pkt :: elems in
+  let '(recovered, elems2) :=
+    if d_data st <=? Z.of_nat (length elems1) then
+      (if num_data elems1 =? d_data st then []
+       else recover (mk (d_data st) (d_parity st)) (d_data st)
+                    (fill_shards ss elems1) (max_len elems1),
+       [])
+    else ([], elems1) in
+  let sets1 := set_put shardId elems2 sets0 in
+  let newest :=
+    if itimediff (u32 (shardId * ss)) (u32 (newest0 * ss)) >? 0 then shardId
+    else newest0 in
+  Ok (set_sets st newest (discard ss newest sets1), recovered).
+
+(* the auto-tuning branch (shouldTune = true): nothing is decoded, both periods are searched *)
+Definition dec_retune (st : fecdec) : fecdec :=
+  let tune := d_at st in
+  let autoDS := find_period tune true in
+  let autoPS := find_period tune false in
+  if (0 <? autoDS) && (0 <? autoPS) && (autoDS + autoPS <? 256) then
+    if negb (autoDS =? d_data st) || negb (autoPS =? d_parity st) then
+      mkDec autoDS autoPS (autoDS + autoPS) (paws_of (autoDS + autoPS)) (d_newest st) [] tune false
+    else set_should st false
+  else set_should st true.
+
 (* func (dec *fecDecoder) decode(in fecPacket) (recovered [][]byte) *)
 Definition dec_decode (mk : Z -> Z -> codec) (st0 : fecdec) (pkt : bytes)
   : res (fecdec * list bytes) :=
@@ -118,45 +158,11 @@ Definition dec_decode (mk : Z -> Z -> codec) (st0 : fecdec) (pkt : bytes)
   let seqid := pk_seqid pkt in
   let flag := pk_flag pkt in
   (* sample the packet type *)
-  let tune := at_sample (d_at st0) (flag =? c_typeData) seqid in
-  let st := set_at st0 tune in
+  let st := set_at st0 (at_sample (d_at st0) (flag =? c_typeData) seqid) in
   (* seqid >= paws: invalid *)
   if d_paws st <=? seqid then Ok (st, []) else
-  let should := d_should st || type_mismatch st seqid flag in
-  if should then
-    let autoDS := find_period tune true in
-    let autoPS := find_period tune false in
-    if (0 <? autoDS) && (0 <? autoPS) && (autoDS + autoPS <? 256) then
-      if negb (autoDS =? d_data st) || negb (autoPS =? d_parity st) then
-        Ok (mkDec autoDS autoPS (autoDS + autoPS) (paws_of (autoDS + autoPS))
-                  (d_newest st) [] tune false, [])
-      else Ok (set_should st false, [])
-    else Ok (set_should st true, [])
-  else
-    let ss := d_size st in
-    let shardId := seqid / ss in
-    (* no group is held (new decoder, or just re-tuned): this packet defines the position *)
-    let newest0 := match d_sets st with [] => shardId | _ => d_newest st end in
-    let '(elems, sets0) :=
-      match set_find shardId (d_sets st) with
-      | Some e => (e, d_sets st)
-      | None => ([], set_put shardId [] (d_sets st))
-      end in
-    if has_seqid seqid elems then Ok (set_sets st newest0 sets0, []) else
-    if c_mtuLimit <? blen pkt then Panic P_decPoolCopy else
-    let elems1 := pkt :: elems in
-    let '(recovered, elems2) :=
-      if d_data st <=? Z.of_nat (length elems1) then
-        (if num_data elems1 =? d_data st then []
-         else recover (mk (d_data st) (d_parity st)) (d_data st)
-                      (fill_shards ss elems1) (max_len elems1),
-         [])
-      else ([], elems1) in
-    let sets1 := set_put shardId elems2 sets0 in
-    let newest :=
-      if itimediff (u32 (shardId * ss)) (u32 (newest0 * ss)) >? 0 then shardId
-      else newest0 in
-    Ok (set_sets st newest (discard ss newest sets1), recovered).
+  if d_should st || type_mismatch st seqid flag then Ok (dec_retune st, [])
+  else dec_store mk st pkt seqid.
 
 (* ---- the FEC branch (case typeData, typeParity) of UDPSession.kcpInput: what is fed to
    kcp.Input, in order, as (bytes, IKCP_PACKET_REGULAR | IKCP_PACKET_FEC).  A data packet is fed
